@@ -257,6 +257,7 @@ struct World {
     Hash caseh; // op-kind sequence + model states
     int mutating = 0, comparisons = 0;
     uint64_t steps = 0;
+    bool keep_accounting = false; // a repetition that decides whether residue is still growing: residue itself is not judged
 
     World(const Plan &p, Disabled &d, Counters &c, Progress *pr)
         : plan(p)
@@ -1608,7 +1609,7 @@ struct World {
             violate((int)plan.ops.size(), v, -1, "Teardown", "allocator accounting at end of run");
             return;
         }
-        if (alloc::live_blocks() != 0) {
+        if (alloc::live_blocks() != 0 && !keep_accounting) {
             std::ostringstream o;
             o << alloc::live_blocks() << " block(s), " << alloc::live_bytes() << " byte(s) allocated by the library still live after every field was destroyed";
             violate((int)plan.ops.size(), "leak", -1, "Teardown", o.str());
@@ -2967,16 +2968,27 @@ struct RunResult {
     uint64_t steps = 0;
 };
 
-RunResult run_plan_once(const Plan &p, Disabled &dis, Counters &cnt, Progress *prog);
+RunResult run_plan_once(const Plan &p, Disabled &dis, Counters &cnt, Progress *prog, bool keep_accounting = false, size_t *live_at_end = nullptr);
 
-// Residue after every field was destroyed is a leak only if it comes back when the same
-// plan is executed again in the same process: storage that the library allocates ONCE per
-// process (a lazily built table, an immortal cache, a singleton) is reachable for the
-// process lifetime and is not what "leaked" means. The second pass decides.
+// Residue after every field was destroyed is a leak only if it GROWS when the same plan is
+// executed again and again in the same process. Storage that the library allocates once per
+// process (a lazily built table, an immortal cache, a singleton), or keeps one instance of
+// and replaces (a "last error" string, a scratch buffer that is reallocated), reaches a steady
+// state and is not what "leaked" means. Two further passes, without forgetting the blocks
+// of the earlier ones, decide: the number of live blocks must still be rising.
 RunResult run_plan(const Plan &p, Disabled &dis, Counters &cnt, Progress *prog)
 {
     RunResult rr = run_plan_once(p, dis, cnt, prog);
-    if (!rr.ok && (rr.v.key.rfind("leak:", 0) == 0 || rr.v.key.rfind("device-leak:", 0) == 0)) {
+    if (!rr.ok && rr.v.key.rfind("leak:", 0) == 0) {
+        Counters scratch;
+        size_t l2 = 0, l3 = 0;
+        RunResult second = run_plan_once(p, dis, scratch, prog, true, &l2);
+        RunResult third = run_plan_once(p, dis, scratch, prog, true, &l3);
+        if (second.ok && third.ok && l3 <= l2) {
+            cnt.inc("observed.one_time_allocation_kept_by_the_library");
+            return third;
+        }
+    } else if (!rr.ok && rr.v.key.rfind("device-leak:", 0) == 0) {
         Counters scratch;
         RunResult again = run_plan_once(p, dis, scratch, prog);
         if (again.ok) {
@@ -2987,9 +2999,12 @@ RunResult run_plan(const Plan &p, Disabled &dis, Counters &cnt, Progress *prog)
     return rr;
 }
 
-RunResult run_plan_once(const Plan &p, Disabled &dis, Counters &cnt, Progress *prog)
+RunResult run_plan_once(const Plan &p, Disabled &dis, Counters &cnt, Progress *prog, bool keep_accounting, size_t *live_at_end)
 {
-    alloc::begin_run();
+    if (!keep_accounting)
+        alloc::begin_run();
+    else
+        alloc::take_violation();
 #ifdef SIM_HAVE_CUDA_SHIM
     cuda::begin_run();
 #endif
@@ -3006,9 +3021,12 @@ RunResult run_plan_once(const Plan &p, Disabled &dis, Counters &cnt, Progress *p
     watchdog_arm(RUNNING_ON_VALGRIND ? 900 : 60);
     {
         World w(p, dis, cnt, prog);
+        w.keep_accounting = keep_accounting;
         for (size_t i = 0; i < p.ops.size() && !w.failed; ++i)
             w.exec_op((int)i, p.ops[i]);
         w.finish();
+        if (live_at_end)
+            *live_at_end = alloc::live_blocks();
         rr.ok = !w.failed;
         rr.v = w.viol;
         rr.obs = w.obs.h;
